@@ -279,3 +279,89 @@ def dump_without_empty_metadata(n, ds_index, strip=True):
     if isinstance(n, list):
         return "[" + ",".join(dump_without_empty_metadata(x, ds_index, strip) for x in n) + "]"
     return f"{type(n).__name__}:{n!r}"
+
+
+# ----------------------------------------------------------------------------- stand-alone replay text
+_CODE_HEADER = '''# stand-alone replay of an operation history found by fadlmc (no explorer needed)
+import ast
+from typing import Iterable
+from func_adl import EventDataset, func_adl_callback
+
+LOG = []
+class DS(EventDataset):
+    def __init__(self, idx, item_type=None):
+        super().__init__() if item_type is None else super().__init__(item_type)
+        self.idx = idx
+    async def execute_result_async(self, a, title=None):
+        LOG.append((self.idx, ast.dump(a), title))
+        return ("tok", self.idx, len(LOG))
+
+class Jet:
+    @func_adl_callback(lambda s, a: (s.MetaData({}), a))
+    def pt(self, k: int = 2) -> float: ...
+    def eta(self) -> float: ...
+@func_adl_callback(lambda s, a: (s.MetaData({"ev": 1}), a))
+class Event:
+    def met(self, scale: float = 1.0) -> float: ...
+    def jets(self, kind: str = "def") -> Iterable[Jet]: ...
+class Jet2:
+    @func_adl_callback(lambda s, a: (s.MetaData({"jetcb": 1}), a))
+    def pt(self, k: int = 2) -> float: ...
+class Event2:
+    def met(self, scale: float = 1.0) -> float: ...
+    def jets(self, kind: str = "def") -> Iterable[Jet2]: ...
+
+def snapshot(s):
+    return ast.dump(s.query_ast), repr(s.item_type)
+'''
+
+
+def history_code(roots, hist):
+    """Python text that replays `hist` on plain func_adl objects and prints every stream before and after each
+    step (roots = (n_untyped, n_typed, n_typed2))."""
+    w = World(*roots)
+    lines = [_CODE_HEADER]
+    types = [None] * roots[0] + ["Event"] * roots[1] + ["Event2"] * (roots[2] if len(roots) > 2 else 0)
+    lines.append("streams = [" + ", ".join(f"DS({i}, {t})" if t else f"DS({i})" for i, t in enumerate(types)) + "]")
+    lines.append("seen = [snapshot(s) for s in streams]")
+    for op in hist:
+        name, i = op[0], op[1]
+        k = w.kind(i)
+        if name in ("Select", "Where", "SelectMany", "Select2", "SelectSame"):
+            meth = "Select" if name in ("Select2", "SelectSame") else name
+            code = f"streams.append(streams[{i}].{meth}({BODIES[k][name]!r}))"
+        elif name == "SelectAst":
+            code = f"streams.append(streams[{i}].Select(ast.parse({BODIES[k]['Select']!r}).body[0].value))  # the harness re-uses ONE ast object per kind"
+        elif name in ("SelectCall", "WhereCall"):
+            code = f"streams.append(streams[{i}].{'Where' if name == 'WhereCall' else 'Select'}(\n    lambda e: e.x{' > 1' if name == 'WhereCall' else ''}\n))"
+        elif name == "MD0":
+            code = f"streams.append(streams[{i}].MetaData({{}}))"
+        elif name == "MD1":
+            code = f"streams.append(streams[{i}].MetaData({{'k': 1}}))"
+        elif name == "QMD":
+            code = f"streams.append(streams[{i}].QMetaData({dict(op[2])!r}))"
+        elif name == "Awk":
+            code = f"streams.append(streams[{i}].AsAwkwardArray(['c']))"
+        elif name == "TTree":
+            code = f"streams.append(streams[{i}].AsROOTTTree('f.root', 't', ['c']))"
+        elif name == "Pandas":
+            code = f"streams.append(streams[{i}].AsPandasDF('c'))"
+        elif name == "Parquet":
+            code = f"streams.append(streams[{i}].AsParquetFiles('f.pq', ['c']))"
+        elif name in ("Value", "ValueAsync"):
+            code = f"print('value ->', streams[{i}].value())"
+        elif name == "ValueT":
+            code = f"print('value ->', streams[{i}].value(title='t'))"
+        elif name == "ValueOv":
+            code = f"async def override(a, title=None):\n    return ('ov', ast.dump(a))\nprint('value ->', streams[{i}].value(executor=override))"
+        else:
+            code = f"# {op!r}"
+        lines.append(code)
+        lines.append("seen += [snapshot(s) for s in streams[len(seen):]]")
+        lines.append(f"for j, s in enumerate(streams[:len(seen)]):\n    assert snapshot(s) == seen[j], (\"stream %d changed after {op!r}\" % j)")
+        try:
+            w.apply(op)
+        except Exception:
+            break
+    lines.append("print('executor log:', LOG)")
+    return "\n".join(lines) + "\n"
